@@ -58,6 +58,7 @@ THEOREMS = [
     "Cotengra.C12.interleaved_eq",
     "Cotengra.C12.interleaved_implicit_counterexample",
     "Cotengra.C12.single_operand_paths_sound",
+    "Cotengra.C12.singlePath_ok",
     "Cotengra.C12.ncon_output_order",
 ]
 TRUSTED = [
@@ -190,6 +191,33 @@ def detect_cfg():
     except Exception:  # noqa: BLE001
         cfg["sorted_implicit"] = False
     return cfg
+
+
+def canon_terms(terms, output, fixed=()):
+    """rename every symbol that is not in `fixed` by order of first appearance (inputs, then output):
+    which fresh symbols a parser picks is its own business, only the structure is compared"""
+    m = {}
+    def r(c):
+        if c in fixed:
+            return c
+        if c not in m:
+            m[c] = -(len(m) + 1)
+        return m[c]
+    return {"inputs": [[r(c) for c in t] for t in terms], "output": [r(c) for c in output]}
+
+
+def canon_eq(cps_, keep=(44, 45, 46, 62)):
+    """an equation string up to renaming of its symbols (separators and dots kept)"""
+    m = {}
+    out = []
+    for c in cps_:
+        if c in keep:
+            out.append(c)
+        else:
+            if c not in m:
+                m[c] = -(len(m) + 1)
+            out.append(m[c])
+    return out
 
 
 def same(val, ref):
@@ -344,6 +372,9 @@ def stream_einsum(ctx, drv, st, n):
                     real = {"err": "KeyError"}
                 resp = drv.call("c12.interleaved", inputs=sub, output=osub, **st["cfg"])
                 ctx.traces += 1
+                if "eq" in real and "eq" in resp and (osub is not None or st["cfg"]["sorted_implicit"]):
+                    # the output is explicit: the symbols themselves are free
+                    real, resp = {"eq": canon_eq(real["eq"])}, {"eq": canon_eq(resp["eq"])}
                 if resp != real:
                     ctx.corr_broken("convert_from_interleaved differs from the model",
                                     {"sublists": sub, "out": osub, "real": real, "model": resp})
@@ -361,6 +392,11 @@ def tie_parse(ctx, drv, st, eq, shapes):
     resp = drv.call("c12.parse", eq=cp(eq), ranks=[len(s) for s in shapes], **st["cfg"])
     ctx.traces += 1
     ctx.count("parse:" + ("err" if "err" in real else "ok"))
+    if "err" not in real and "err" not in resp:
+        # symbols that are not in the equation (the ellipsis expansion) are free up to renaming
+        fixed = set(cp(eq))
+        real = canon_terms(real["inputs"], real["output"], fixed)
+        resp = canon_terms(resp["inputs"], resp["output"], fixed)
     if resp != real:
         ctx.corr_broken("parse_equation_ellipses differs from the model", {"eq": eq, "ranks": [len(s) for s in shapes],
                                                                           "real": real, "model": resp})
@@ -421,8 +457,10 @@ def stream_array_contract(ctx, drv, st, n):
         lab_in = [[labels[i] for i in t] for t in inputs]
         lab_out = None if output is None else [labels[i] for i in output]
         ni, no, _, _ = cu.canonicalize_inputs(lab_in, lab_out)
-        real = {"inputs": [cp(t) for t in ni], "output": cp(no)}
+        real = canon_terms([cp(t) for t in ni], cp(no))
         resp = drv.call("c12.canon", inputs=inputs, output=output)
+        if "error" not in resp:
+            resp = canon_terms(resp["inputs"], resp["output"])
         ctx.traces += 1
         if resp != real:
             ctx.corr_broken("canonicalize_inputs differs from the model", {"inputs": inputs, "output": output,
@@ -493,12 +531,17 @@ def stream_single(ctx, drv, st):
                 real = {"path": "transpose" if "perm" in fv else "einsum" if "eq" in fv else "identity"}
                 if real["path"] == "transpose":
                     real["perm"] = list(fn.__closure__[fv.index("perm")].cell_contents)
-                resp = drv.call("c12.single", term=list(t), output=list(out))
+                # (A) the path the real code took must be admissible (Lean `pathOK`, proved sound); which
+                # admissible path it takes is its own business
+                resp = drv.call("c12.pathok", term=list(t), output=list(out), **real)
+                model = drv.call("c12.single", term=list(t), output=list(out))
                 ctx.traces += 1
                 ctx.count("single_path:" + real["path"])
-                if resp != real:
-                    ctx.corr_broken("single-operand fast path differs from the model",
-                                    {"eq": eq, "real": real, "model": resp})
+                if model != real:
+                    ctx.count("single_path_differs_from_model")
+                if resp.get("ok") is not True:
+                    ctx.corr_broken("the single-operand path taken is not admissible (pathOK)",
+                                    {"eq": eq, "real": real, "model": model})
 
 
 def stream_symbols(ctx, drv):
